@@ -8,8 +8,8 @@ import (
 // RaceReport is one report of the Go race detector, reduced to the innermost
 // library frame of each of the two conflicting accesses.
 type RaceReport struct {
-	Kinds   [2]string // "read" | "write"
-	Frames  [2]string // innermost library function of each access ("" if none)
+	Kinds   [2]string   // "read" | "write"
+	Frames  [2]string   // innermost library function of each access ("" if none)
 	Stacks  [2][]string // all library functions on each access's stack, innermost first
 	Harness bool        // neither stack has a library frame: the harness itself raced
 	Text    string
